@@ -295,8 +295,43 @@ pub fn apply(w: &World, data: InterpreterData, by: usize, op: &ForgeOp, particle
                 return None;
             }
             let i = pos[*n as usize % pos.len()];
-            d.j["trace"][i] = json!({"call": {"sent_by": me}});
+            d.j["trace"][i] = json!({"call": {"sent_by": {"PeerId": me}}});
             must = Some("truncate_results".into());
+        }
+        ForgeOp::CanonRewrite { n } => {
+            // alter another peer's executed canon result (reorder / drop an element), stores kept consistent
+            let arr = d.j["trace"].as_array()?.clone();
+            let mut cands: Vec<(usize, String)> = vec![];
+            for (i, st) in arr.iter().enumerate() {
+                if let Some(c) = st.get("canon").and_then(|c| c.get("executed")).and_then(|c| c.as_str()) {
+                    let agg = d.j["cid_info"]["canon_result_store"].get(c)?;
+                    let t = d.j["cid_info"]["tetraplet_store"].get(agg.get("tetraplet")?.as_str()?)?;
+                    if t.get("peer_pk")?.as_str()? != me {
+                        cands.push((i, c.to_string()));
+                    }
+                }
+            }
+            if cands.is_empty() {
+                return None;
+            }
+            let (pos, old) = cands[*n as usize % cands.len()].clone();
+            let mut agg = d.j["cid_info"]["canon_result_store"][&old].clone();
+            let vals = agg["values"].as_array_mut()?;
+            if vals.len() >= 2 {
+                vals.swap(0, 1);
+            } else if vals.len() == 1 {
+                vals.clear();
+            } else {
+                return None;
+            }
+            let typed: air_interpreter_data::CanonResultCidAggregate = serde_json::from_value(agg.clone()).ok()?;
+            let new = air_interpreter_cid::value_to_json_cid(&typed).ok()?.get_inner().to_string();
+            if new == old {
+                return None;
+            }
+            d.j["cid_info"]["canon_result_store"][&new] = agg;
+            d.j["trace"][pos] = json!({"canon": {"executed": new}});
+            must = Some("canon_rewrite".into());
         }
         ForgeOp::Reattribute => {
             reattribute(&mut d, &me)?;
@@ -479,7 +514,7 @@ fn struct_mutate(d: &mut Doc, sel: u32, kind: u8, val: u64, me: &str) -> Option<
             let any = arr.iter().filter_map(|s| state_cid(s)).find(|(k, _)| *k != "unused").map(|x| x.1);
             d.j["trace"][i] = match (val % 3, any) {
                 (0, Some(c)) => json!({"call": {"failed": c}}),
-                (1, _) => json!({"call": {"sent_by": {"peer_id": me, "call_id": (val % 7) as u32}}}),
+                (1, _) => json!({"call": {"sent_by": {"PeerIdWithCallId": {"peer_id": me, "call_id": (val % 7) as u32}}}}),
                 (_, Some(c)) => json!({"call": {"executed": {"scalar": c}}}),
                 _ => return None,
             };
@@ -531,7 +566,8 @@ pub fn draw(w: &World, rng: &mut Rng, mid: MsgId, _from: usize) -> Option<Vec<Fo
         }
     }
     let one = |rng: &mut Rng, n: u32, m: u32| -> ForgeOp {
-        match rng.below(13) {
+        match rng.below(14) {
+            13 => ForgeOp::CanonRewrite { n },
             0 => ForgeOp::ValueSwap { n },
             1 => ForgeOp::CidRewrite { n },
             2 => ForgeOp::TetrapletChange { n, field: (m % 4) as u8 },
